@@ -238,6 +238,7 @@ def init_repo(path, bare=True, config=""):
     gitdir = path if bare else os.path.join(path, ".git")
     os.makedirs(os.path.join(gitdir, "objects", "info"), exist_ok=True)
     os.makedirs(os.path.join(gitdir, "objects", "pack"), exist_ok=True)
+    os.makedirs(os.path.join(gitdir, "info"), exist_ok=True)
     os.makedirs(os.path.join(gitdir, "refs", "heads"), exist_ok=True)
     os.makedirs(os.path.join(gitdir, "refs", "tags"), exist_ok=True)
     with open(os.path.join(gitdir, "HEAD"), "w") as f:
